@@ -201,6 +201,9 @@ def snapshot_cases(prog, sched, ext_menu=()):
             inprog = [{"step": key[0], "uid": key[1], "retry": key[2]} for key in s.rig.open_gates()]
             pending_retry = any(tk.__class__.__name__ == "TickAddEvent" for r_ in en._RUNNERS.values()
                                 for (_a, _s, tk) in r_.scheduled_wakeups)
+            # cause feature: a RUNNING invocation carries a recovery history (the serialised form keeps none for running work)
+            inprog_recovered = any(bool(ip.recovery_counts) for r_ in en._RUNNERS.values()
+                                   for w in r_.state.workers.values() for ip in w.in_progress)
             n1 = {}
             f1 = {}
             for r in s.trace:
@@ -218,7 +221,7 @@ def snapshot_cases(prog, sched, ext_menu=()):
         finally:
             s.close()
         rec = {"e": "case", "k": k, "ref": ref, "inprog": inprog, "snap_err": snap_err, "run": 1, "seq": k, "t": 0,
-               "pending_retry": bool(pending_retry)}
+               "pending_retry": bool(pending_retry), "inprog_recovered": bool(inprog_recovered)}
         if snap is None:
             rec.update(res={"kind": "snapshot_failed", "detail": "", "store": [], "completed": []}, stable=True, post=[],
                        resume_err="", fails=[])
